@@ -8,6 +8,10 @@ ABS = 1e-12
 
 
 def same(a, b, approx=True):
+    if type(a).__module__ == 'numpy' and hasattr(a, 'tolist') and getattr(a, 'ndim', 0) > 0:
+        a = a.tolist()
+    if type(b).__module__ == 'numpy' and hasattr(b, 'tolist') and getattr(b, 'ndim', 0) > 0:
+        b = b.tolist()
     if isinstance(a, bool) or isinstance(b, bool):
         return type(a) is type(b) and a == b
     if isinstance(a, float) or isinstance(b, float):
